@@ -58,8 +58,11 @@ def build(cfg, originA=False):
     if cfg["kind"] == "pair":
         Ka, Ma, pa, Kb, Mb, pb = cfg["shape"]
         A = (0.0, 0.0, 0.0) if (originA or cfg.get("originA")) else al.generic_center("A")
-        a = al.shell(cfg["la"], A, Ka, Ma, cfg["ta"], pat=pa, rot=0, tier=tier)
-        b = al.shell(cfg["lb"], A, Kb, Mb, cfg["tb"], pat=pb, rot=1, tier=tier)
+        # every third configuration uses table-style (normalised, rounded) coefficients for shell a, every fourth for b
+        ta_ = (cfg["la"] + 2 * cfg["lb"] + Ka + pb) % 3 == 0
+        tb_ = (cfg["la"] + cfg["lb"] + Kb + pa) % 4 == 0
+        a = al.shell(cfg["la"], A, Ka, Ma, cfg["ta"], pat=pa, rot=0, tier=tier, tabulated=ta_)
+        b = al.shell(cfg["lb"], A, Kb, Mb, cfg["tb"], pat=pb, rot=1, tier=tier, tabulated=tb_)
         ea, eb = min(a.exps), min(b.exps)
         B = al.add(A, al.displacement(cfg["geom"], mu=ea * eb / (ea + eb)))
         b = b.with_(center=B)
@@ -67,7 +70,8 @@ def build(cfg, originA=False):
             a, b = a.with_(icenter=cfg["ic"][0]), b.with_(icenter=cfg["ic"][1])
         return [a, b]
     if cfg["kind"] == "single":
-        return [al.shell(cfg["l"], al.generic_center("A"), cfg["K"], cfg["M"], cfg["t"], pat=cfg["pat"], tier=tier)]
+        return [al.shell(cfg["l"], al.generic_center("A"), cfg["K"], cfg["M"], cfg["t"], pat=cfg["pat"], tier=tier,
+                         tabulated=(cfg["l"] + cfg["K"] + cfg["pat"]) % 2 == 0)]
     cs = al.molecule_centers(cfg["n"])
     return [al.ladder_shell(cfg["start"] + i, cs[i], cfg["types"][i], lmax=cfg.get("lmax", 5)).with_(
         icenter=[None, i // 2, 0][cfg["start"] % 3]) for i in range(cfg["n"])]
